@@ -275,6 +275,7 @@ func declareTree(c *cli.Cmd, t *TCmd, path string, out *TreeOutcome, td *treeDec
 			out.Log = append(out.Log, "A:"+path)
 			for _, p := range mychain {
 				out.Binds[p] = Snapshot(td.holders[p])
+				out.FlagBinds[p] = SnapshotFlags(td.holders[p])
 			}
 		}
 	}
